@@ -7,7 +7,9 @@ klass("TokenG", of="Token", fields=dict(tid=Int, is_eof=Bool))
 klass("ScannerG", of="TokenScanner", fields=dict(nlines=Int, pos=Int), record=False,
       invariant=[clause("range", lambda self: self.nlines >= 0 and self.pos >= 0)])
 klass("MatcherG", of="TokenMatcher", fields=dict(), record=False)
-klass("BuilderG", of="AstBuilder", fields=dict(), record=False)
+klass("ResultG", fields=dict(), record=False)
+# ghost field `built`: the tokens the builder has received through build(), in order
+klass("BuilderG", of="AstBuilder", fields=dict(built=MutList(Val("TokenG"))), record=False)
 klass("ContextG", of="ParserContext",
       fields=dict(token_scanner="ScannerG", token_matcher="MatcherG", token_queue=MutList(Val("TokenG")),
                   errors=MutList(Val("ParserException"))), record=False)
@@ -232,3 +234,120 @@ contract_family(
                 if context.token_scanner.pos <= context.token_scanner.nlines else 0),
             types=dict(token=Val("TokenG"), queue=MutList(Val("TokenG"))),
             modifies=["context.token_queue", "context.token_scanner", "context.errors"])}))
+
+
+# ---- the builder as seen by the parser -------------------------------------------------------------
+contract("gherkin.ast_builder.AstBuilder.build@BuilderG",
+         args=dict(self="BuilderG", token=Val("TokenG")), returns=NoneT, abstract=True,
+         modifies=["self.built"],
+         ensures=[clause("received", lambda self, token: self.built == old(self.built) + [token])])
+contract("gherkin.ast_builder.AstBuilder.start_rule@BuilderG",
+         args=dict(self="BuilderG", rule_type=Str), returns=NoneT, abstract=True)
+contract("gherkin.ast_builder.AstBuilder.end_rule@BuilderG",
+         args=dict(self="BuilderG", rule_type=Str), returns=NoneT, abstract=True,
+         raises=[raises("ParserException")],
+         notes="end_rule may raise AstBuilderException (ragged table): see c_ast_builder.py")
+contract("gherkin.ast_builder.AstBuilder.reset@BuilderG",
+         args=dict(self="BuilderG"), returns=NoneT, abstract=True, modifies=["self.built"],
+         ensures=[clause("fresh", lambda self: len(self.built) == 0)])
+contract("gherkin.ast_builder.AstBuilder.get_result@BuilderG",
+         args=dict(self="BuilderG"), returns="ResultG", abstract=True)
+contract("gherkin.token_matcher.TokenMatcher.reset@MatcherG",
+         args=dict(self="MatcherG"), returns=NoneT, abstract=True)
+
+contract("gherkin.parser.Parser.build",
+         args=dict(self="ParserG", context="ContextG", token=Val("TokenG")), returns=NoneT,
+         modifies=["self.ast_builder.built"],
+         ensures=[clause("delivered", lambda self, token: self.ast_builder.built == old(self.ast_builder.built) + [token],
+                         serves=["C18", "C03"])])
+contract_family(
+    names=["start_rule", "end_rule"],
+    template=contract("gherkin.parser.Parser.$X",
+                      args=dict(self="ParserG", context="ContextG", rule_type=Str), returns=NoneT,
+                      requires=[clause("cap", lambda context: len(context.errors) <= 10)],
+                      modifies=["context.errors"],
+                      ensures=[clause("cap", lambda context: len(context.errors) <= 10, serves=["C14", "C01"]),
+                               clause("monotone", lambda context: len(context.errors) >= len(old(context.errors))
+                                      and forall(len(old(context.errors)), lambda j: context.errors[j] == old(context.errors)[j]),
+                                      serves=["C14"])],
+                      raises=[raises("ParserException", only_if=lambda self: self.stop_at_first_error, serves=["C14", "C01"]),
+                              raises("CompositeParserException", serves=["C14", "C01"],
+                                     ensures=[clause("eleven", lambda exc: len(exc.errors) == 11, serves=["C14", "C01"])])]))
+contract("gherkin.parser.Parser.get_result", inline=True, args=dict())
+
+
+def queue_is_stream(context, k):
+    # the queue holds the next tokens of the stream: queue[j] is stream token k+j, and the scanner stands behind them
+    return context.token_scanner.pos == k + len(context.token_queue) and forall(
+        len(context.token_queue), lambda j: context.token_queue[j] == stream_tok(k + j, context.token_scanner.nlines))
+
+
+# match_token: dispatch to the 42 generated state functions.  Abstract at this level; justified by the automaton
+# obligations (pyvc/finite.py): every path of every state function either builds the token exactly once (last
+# event) or reports it (UnexpectedToken/EOF error) and never both; the queue is only touched through look-ahead.
+contract("gherkin.parser.Parser.match_token",
+         args=dict(self="ParserG", state=Int, token=Val("TokenG"), context="ContextG"), returns=Int, abstract=True,
+         requires=[clause("run", lambda context: is_run(context.token_queue)),
+                   clause("cap", lambda context: len(context.errors) <= 10)],
+         modifies=["context.token_queue", "context.token_scanner.pos", "context.errors", "self.ast_builder.built"],
+         ensures=[
+             clause("nothing-lost", lambda context: len(context.token_queue) == len(old(context.token_queue)) + (
+                 context.token_scanner.pos - old(context.token_scanner.pos))
+                 and context.token_scanner.pos >= old(context.token_scanner.pos)),
+             clause("queue-kept", lambda context: forall(len(old(context.token_queue)), lambda j:
+                    context.token_queue[j] == old(context.token_queue)[j])),
+             clause("read-appended", lambda context: forall(
+                 context.token_scanner.pos - old(context.token_scanner.pos), lambda j:
+                 context.token_queue[len(old(context.token_queue)) + j] == stream_tok(
+                     old(context.token_scanner.pos) + j, context.token_scanner.nlines))),
+             clause("run", lambda context: is_run(context.token_queue)),
+             clause("cap", lambda context: len(context.errors) <= 10),
+             clause("errors-monotone", lambda context: len(context.errors) >= len(old(context.errors))),
+             clause("built-or-reported", lambda self, context, token:
+                    (self.ast_builder.built == old(self.ast_builder.built) + [token])
+                    or (self.ast_builder.built == old(self.ast_builder.built) and len(context.errors) > 0)),
+         ],
+         raises=[raises("ParserException", only_if=lambda self: self.stop_at_first_error),
+                 raises("CompositeParserException", ensures=[clause("eleven", lambda exc: len(exc.errors) == 11)])])
+
+contract("gherkin.parser.ParserContext.__init__", inline=True, args=dict())
+
+# parse: every line token is handed to match_token exactly once, in order, followed by one EOF token; an accepted
+# document's builder has received exactly these tokens; a rejected one raises the composite error (1..11 errors).
+contract("gherkin.parser.Parser.parse",
+         args=dict(self="ParserG", token_scanner_or_str="ScannerG", token_matcher="MatcherG"),
+         requires=[clause("fresh-scanner", lambda token_scanner_or_str: token_scanner_or_str.pos == 0)],
+         returns="ResultG",
+         modifies=["token_scanner_or_str.pos", "self.ast_builder.built"],
+         ensures=[
+             clause("all-delivered", lambda self, token_scanner_or_str:
+                    len(self.ast_builder.built) == token_scanner_or_str.nlines + 1
+                    and forall(len(self.ast_builder.built), lambda j: self.ast_builder.built[j] == stream_tok(
+                        j, token_scanner_or_str.nlines)), serves=["C18", "C03"]),
+         ],
+         raises=[
+             raises("ParserException", only_if=lambda self: self.stop_at_first_error, serves=["C14", "C01"]),
+             raises("CompositeParserException", serves=["C14", "C01"],
+                    ensures=[clause("one-to-eleven", lambda exc: 1 <= len(exc.errors) and len(exc.errors) <= 11,
+                                    serves=["C01", "C14"])]),
+         ],
+         loops={0: loop(
+             invariant=[
+                 clause("stream", lambda context, token_scanner_or_str: context.token_scanner is token_scanner_or_str
+                        and queue_is_stream(context, context.token_scanner.pos - len(context.token_queue))
+                        and context.token_scanner.pos - len(context.token_queue) <= context.token_scanner.nlines
+                        and context.token_scanner.nlines == entry(context.token_scanner.nlines),
+                        serves=["C18"]),
+                 clause("run", lambda context: is_run(context.token_queue), serves=["C18"]),
+                 clause("cap", lambda context: len(context.errors) <= 10, serves=["C14", "C01"]),
+                 clause("delivered", lambda self, context: implies(
+                     len(context.errors) == 0,
+                     len(self.ast_builder.built) == context.token_scanner.pos - len(context.token_queue)
+                     and forall(len(self.ast_builder.built), lambda j: self.ast_builder.built[j] == stream_tok(
+                         j, context.token_scanner.nlines))), serves=["C18", "C03"]),
+             ],
+             variant=lambda context: context.token_scanner.nlines + 1 - (
+                 context.token_scanner.pos - len(context.token_queue)),
+             types=dict(token=Val("TokenG"), context__token_queue=MutList(Val("TokenG")),
+                        context__errors=MutList(Val("ParserException"))),
+             modifies=["context.token_queue", "context.token_scanner", "context.errors", "self.ast_builder"])})
